@@ -229,6 +229,29 @@ example : (nexts 1 (Tokenizer.new #[60, 97, 62, 98])).token = .startTag ∧
 example : (tagName (next (Tokenizer.new #[60, 65, 32, 98, 61, 99, 62]))).1 matches .ok (some [97], true) := by
   decide +kernel
 
+/-- `tag_name()` is single-use (review B, C16-2): after a successful call the data span is reset, so a SECOND call on the
+same token returns `Ok((None, false))` — `tag_name_some` is about the first call after `next()`, which is the only one the
+filters make. -/
+theorem tag_name_second_call (t : Tokenizer) (x : Option (List Nat) × Bool) (h : (tagName t).1 = .ok x)
+    (hx : x.1 ≠ none) : (tagName (tagName t).2).1 = .ok (none, false) := by
+  have hA : (tagName t).2.dataS = (tagName t).2.dataE := by
+    unfold tagName at h ⊢
+    by_cases hc : (decide (t.dataS < t.dataE) && isTagLike t.token) = true
+    · rw [if_pos hc] at h ⊢
+      cases hs : t.slice? t.dataS t.dataE with
+      | none => rw [hs] at h; cases h
+      | some bs =>
+        rw [hs] at h
+        simp only at h ⊢
+        by_cases hv : (!validUtf8 bs) = true
+        · rw [if_pos hv] at h; cases h
+        · rw [if_neg hv]
+    · rw [if_neg hc] at h
+      injection h with h; subst h; exact absurd rfl hx
+  generalize (tagName t).2 = s at hA
+  unfold tagName
+  rw [if_neg (by simp [hA])]
+
 /-! ### the raw-text context (`raw_tag()`, `new_fragment`; read by the html filter since fe7eac6) -/
 
 /-- **`new_fragment`** keeps its (lower-cased) context tag iff it is one of the ten raw-text element names
